@@ -10,7 +10,8 @@ def QS (s : Seg) : Prop := ∃ l, Linked s l ∧ Clean s l
 theorem freeSlot_QS {s : Seg} {l : List Nat} (hl : Linked s l) (hc : Clean s l) (a : Nat)
     (hf : (s.get a).deleted = true ∨ (s.get a).copied = true) : Linked (s.freeSlot a) l ∧ Clean (s.freeSlot a) l ∧
       (∀ j, j ≠ a → ((s.freeSlot a).get j).next = (s.get j).next ∧ ((s.freeSlot a).get j).prev = (s.get j).prev ∧
-        ((s.freeSlot a).get j).deleted = (s.get j).deleted ∧ ((s.freeSlot a).get j).copied = (s.get j).copied) := by
+        ((s.freeSlot a).get j).deleted = (s.get j).deleted ∧ ((s.freeSlot a).get j).copied = (s.get j).copied) ∧
+      (s.freeSlot a).slots.size = s.slots.size ∧ (s.freeSlot a).free = a :: s.free := by
   have hal : a ∉ l := fun hh => by
     have := hc.live a hh
     rcases hf with hf | hf
@@ -58,7 +59,7 @@ theorem freeSlot_QS {s : Seg} {l : List Nat} (hl : Linked s l) (hc : Clean s l) 
     fun j hj => get_upd_ne t a j _ hj
   have ga : ({ (t.upd a fun _ => { next := t.free.head? }) with free := a :: t.free } : Seg).get a = { next := t.free.head? } :=
     get_upd_self t a _ has'
-  refine ⟨⟨l1.nodup, fun x hx => by simpa using l1.inb x hx, l1.first, l1.last, ?_⟩, ?_, ?_⟩
+  refine ⟨⟨l1.nodup, fun x hx => by simpa using l1.inb x hx, l1.first, l1.last, ?_⟩, ?_, ?_, by simp [hsz], by simp [hfr]⟩
   rotate_left 2
   · intro j hj
     rw [gne j hj]
@@ -124,7 +125,18 @@ returns is null, a slot of the stream, or the deleted former first slot -/
 def JO (c : Ctx) (l : List Nat) (so : Option Nat) : Prop := J (c.setIs so) l
 
 theorem JO.mk' {c : Ctx} {l : List Nat} {so : Option Nat} (hl : Linked c.seg l) (hc : Clean c.seg l) (hi : IsOK c.seg l so)
-    (hh : HwOK c.highwater l) : JO c l so := ⟨hl, hc, hi, hh⟩
+    (hh : HwOK c.highwater l) (ha : Alloc c.seg l) : JO c l so := ⟨hl, hc, hi, hh, ha⟩
+theorem JO.alloc {c : Ctx} {l : List Nat} {so : Option Nat} (h : JO c l so) : Alloc c.seg l := (show J (c.setIs so) l from h).alloc
+
+/-- freeing a marked slot: every other slot in use keeps its flags, and the freed one is no longer in use -/
+theorem freeSlot_alloc {s : Seg} {l : List Nat} (hl : Linked s l) (hc : Clean s l) (ha : Alloc s l) (a : Nat)
+    (hf : (s.get a).deleted = true ∨ (s.get a).copied = true) : Alloc (s.freeSlot a) l := by
+  obtain ⟨_, _, hfr, hsz, hfree⟩ := freeSlot_QS hl hc a hf
+  intro j h1 h2 h3 h4
+  rw [hsz] at h1; rw [hfree] at h2
+  have hja : j ≠ a := fun hh => h2 (by rw [hh]; exact List.mem_cons_self)
+  rw [(hfr j hja).2.2.2] at h3; rw [(hfr j hja).2.2.1] at h4
+  exact ha j h1 (fun hh => h2 (List.mem_cons_of_mem _ hh)) h3 h4
 theorem JO.linked {c : Ctx} {l : List Nat} {so : Option Nat} (h : JO c l so) : Linked c.seg l := (show J (c.setIs so) l from h).linked
 theorem JO.clean {c : Ctx} {l : List Nat} {so : Option Nat} (h : JO c l so) : Clean c.seg l := (show J (c.setIs so) l from h).clean
 theorem JO.isok {c : Ctx} {l : List Nat} {so : Option Nat} (h : JO c l so) : IsOK c.seg l so := (show J (c.setIs so) l from h).isok
@@ -140,7 +152,7 @@ theorem freeSlot_isok {s : Seg} {l : List Nat} (hl : Linked s l) (hc : Clean s l
     rcases hf with hf | hf
     · rw [this.1] at hf; cases hf
     · rw [this.2] at hf; cases hf
-  obtain ⟨_, _, hfr⟩ := freeSlot_QS hl hc a hf
+  obtain ⟨_, _, hfr, _, _⟩ := freeSlot_QS hl hc a hf
   split
   · rename_i hoa
     rcases ho with h0 | ⟨i, h1, h2⟩ | ⟨d, h1, h2, h3, h4, h5, h6⟩
@@ -167,7 +179,8 @@ theorem gcStep_JO (acc : Ctx × Option Nat) (k : Nat) {l : List Nat} (h : JO acc
       have hf : (acc.1.seg.get sl).deleted = true ∨ (acc.1.seg.get sl).copied = true := by simpa using hfl
       obtain ⟨h1, h2, _⟩ := freeSlot_QS h.linked h.clean sl hf
       have h3 := freeSlot_isok h.linked h.clean sl hf acc.2 h.isok
-      exact JO.mk' (by simpa using h1) (by simpa using h2) (by simpa using h3) (by simpa using h.hw)
+      have h4 := freeSlot_alloc h.linked h.clean h.alloc sl hf
+      exact JO.mk' (by simpa using h1) (by simpa using h2) (by simpa using h3) (by simpa using h.hw) (by simpa using h4)
     · exact h
   · exact h
 
@@ -200,12 +213,12 @@ theorem finishAction_JO (s : St) (dl : Bool) {l : List Nat} (h : J s.ctx l)
       apply Classical.byContradiction; intro hn; exact hb hn
     have hrd := storeIs_read s.ctx hb'
     have hbase : JO s.ctx.storeIs l (s.ctx.storeIs.smap.getD s.ctx.storeIs.map.toNat none) := by
-      rw [hrd]; exact JO.mk' h.linked h.clean h.isok h.hw
+      rw [hrd]; exact JO.mk' h.linked h.clean h.isok h.hw h.alloc
     split at e
     · cases e
     · split at e
       · cases e
-        exact JO.mk' h.linked h.clean (.inl rfl) (fun x hx => by cases hx)
+        exact JO.mk' h.linked h.clean (.inl rfl) (fun x hx => by cases hx) h.alloc
       · split at e
         · cases e; exact gc_JO _ _ hbase
         · cases e; exact hbase
@@ -217,14 +230,14 @@ well-formed doubly linked list `l'`, the high-water mark is a slot of it, and so
 or the deleted former first slot). -/
 theorem doAction_cursor {is : List Instr} {dl : Bool} {mr : Nat} {data : List Nat} {ctx : Ctx} {l : List Nat}
     (hl : Linked ctx.seg l) (hc : Clean ctx.seg l) (hh : HwOK ctx.highwater l)
-    (hcell : IsOK ctx.seg l (ctx.smap.getD ((ctx.context : Int) + 1).toNat none))
+    (hcell : IsOK ctx.seg l (ctx.smap.getD ((ctx.context : Int) + 1).toNat none)) (ha : Alloc ctx.seg l)
     {r : Int} {st : Status} {so : Option Nat} {c : Ctx}
     (e : doAction is dl mr data ctx = .ok (r, st, so, c)) : ∃ l', JO c l' so := by
   unfold doAction at e
   simp only [] at e
   split at e
-  · cases e; exact ⟨l, JO.mk' hl hc (.inl rfl) (fun x hx => by cases hx)⟩
-  · have h0 : PS (enterCtx (startCtx ctx)) := ⟨l, ⟨hl, hc, hcell, hh⟩⟩
+  · cases e; exact ⟨l, JO.mk' hl hc (.inl rfl) (fun x hx => by cases hx) ha⟩
+  · have h0 : PS (enterCtx (startCtx ctx)) := ⟨l, ⟨hl, hc, hcell, hh, ha⟩⟩
     have hr := runLoop_preserves PS ops_PS is { vm := initVm data, ctx := enterCtx (startCtx ctx) } h0
     split at e
     · cases e
@@ -238,10 +251,10 @@ slot map's current cell holds a slot of the stream, then after the action – an
 garbage collection that follows it the stream is again a well-formed doubly linked list whose length is the glyph count. -/
 theorem doAction_stream {is : List Instr} {dl : Bool} {mr : Nat} {data : List Nat} {ctx : Ctx} {l : List Nat}
     (hl : Linked ctx.seg l) (hc : Clean ctx.seg l) (hh : HwOK ctx.highwater l)
-    (hmap : ∀ x, ctx.smap.getD ((ctx.context : Int) + 1).toNat none = some x → x ∈ l)
+    (hmap : ∀ x, ctx.smap.getD ((ctx.context : Int) + 1).toNat none = some x → x ∈ l) (ha : Alloc ctx.seg l)
     {r : Int} {st : Status} {so : Option Nat} {c : Ctx}
     (e : doAction is dl mr data ctx = .ok (r, st, so, c)) : QS c.seg := by
-  obtain ⟨l', h⟩ := doAction_cursor hl hc hh (isok_opt_mem hmap) e
+  obtain ⟨l', h⟩ := doAction_cursor hl hc hh (isok_opt_mem hmap) ha e
   exact ⟨l', h.linked, h.clean⟩
 
 end GrVerif.Action
